@@ -26,6 +26,8 @@ def line_starts(text):
 
 def to_index(text, starts, line, col):
     """1-based (line, col) as the reader reports them -> 1-based character index"""
+    if not (1 <= line <= len(starts)):
+        return 10 ** 6          # a line the text does not have: reported as a position outside the text
     return starts[line - 1] + col
 
 
